@@ -658,7 +658,12 @@ class _Option:
             raise
 
     def _parse_bool(self, value: str) -> bool:
-        return value.lower() not in ("false", "0", "f")
+        lowered = value.lower()
+        if lowered in ("true", "1", "t"):
+            return True
+        if lowered in ("false", "0", "f"):
+            return False
+        raise Error(f"Option {self.name!r}: invalid boolean value {value!r}")
 
     def _parse_string(self, value: str) -> str:
         return _unicode(value)
